@@ -483,8 +483,98 @@ def _translate_kernel_py():
     return norm, "    let o := code_normalise s in\n    %s" % ret[1]
 
 
+DETAILS_NOTE = [None]
+
+
+def _translate_make_details():
+    """details.make_details of the current tree (fail-closed Python-ast walk): the count of active distributions, the
+    refusal test and ITS PLACE relative to the selection, the selection itself and the mesh size.  Returns Coq terms."""
+    import ast
+    import os
+    tree = ast.parse(open(os.path.join(common.REPO, "sasmodels", "details.py")).read())
+    fn = next((n for n in tree.body if isinstance(n, ast.FunctionDef) and n.name == "make_details"), None)
+    if fn is None:
+        raise Untranslatable("make_details not found")
+    body = [b for b in fn.body if not (isinstance(b, ast.Expr) and isinstance(b.value, ast.Constant))]
+    txt = [ast.unparse(b) for b in body]
+
+    def cmp_nat(node, names):
+        if not (isinstance(node, ast.Compare) and len(node.ops) == 1):
+            raise Untranslatable("not one comparison: %s" % ast.unparse(node))
+        l, r = ast.unparse(node.left), ast.unparse(node.comparators[0])
+        if l not in names or r not in names:
+            raise Untranslatable("comparison of %s with %s" % (l, r))
+        a, b = names[l], names[r]
+        return {ast.Gt: "Nat.ltb %s %s" % (b, a), ast.Lt: "Nat.ltb %s %s" % (a, b), ast.GtE: "Nat.leb %s %s" % (b, a), ast.LtE: "Nat.leb %s %s" % (a, b)}[type(node.ops[0])]
+    # num_active = np.sum(length > c)
+    i_na = next((i for i, b in enumerate(body) if isinstance(b, ast.Assign) and ast.unparse(b.targets[0]) == "num_active"), None)
+    if i_na is None:
+        raise Untranslatable("num_active is not computed")
+    v = body[i_na].value
+    if not (isinstance(v, ast.Call) and ast.unparse(v.func) == "np.sum" and len(v.args) == 1 and not v.keywords and isinstance(v.args[0], ast.Compare)
+            and ast.unparse(v.args[0].left) == "length" and len(v.args[0].ops) == 1 and isinstance(v.args[0].comparators[0], ast.Constant)
+            and isinstance(v.args[0].comparators[0].value, int)):
+        raise Untranslatable("num_active = %s" % ast.unparse(v))
+    c_ = v.args[0].comparators[0].value
+    active = {ast.Gt: "Nat.ltb %d n" % c_, ast.GtE: "Nat.leb %d n" % c_}.get(type(v.args[0].ops[0]))
+    if active is None:
+        raise Untranslatable("num_active counts %s" % ast.unparse(v.args[0]))
+    if "max_pd = model_info.parameters.max_pd" not in txt:
+        raise Untranslatable("max_pd is not the model's")
+    # the refusal: if <num_active ? max_pd>: raise ValueError
+    i_rf = next((i for i, b in enumerate(body) if isinstance(b, ast.If) and len(b.body) == 1 and isinstance(b.body[0], ast.Raise) and not b.orelse), None)
+    if i_rf is None:
+        raise Untranslatable("no refusal of too many dispersed parameters")
+    refuses = cmp_nat(body[i_rf].test, {"num_active": "(code_num_active lens)", "max_pd": "max_pd"})
+    # the selection
+    i_ix = next((i for i, t in enumerate(txt) if t.startswith("idx = ")), None)
+    if i_ix is None or txt[i_ix] != "idx = np.argsort(length)[::-1][:max_pd]":
+        raise Untranslatable("selection: %s" % (txt[i_ix] if i_ix is not None else None))
+    if not (i_na < i_rf < i_ix) or txt.index("max_pd = model_info.parameters.max_pd") > i_rf:
+        raise Untranslatable("the refusal does not stand between the count and the selection")
+    for i, b in enumerate(body[:i_ix]):
+        if i not in (i_na, i_rf) and any(isinstance(n, ast.Name) and isinstance(n.ctx, ast.Store) and n.id in ("length", "num_active", "max_pd") for n in ast.walk(b)) \
+                and txt[i] != "max_pd = model_info.parameters.max_pd":
+            raise Untranslatable("length / num_active / max_pd reassigned: %s" % txt[i])
+    need = ["pd_stride = np.cumprod(np.hstack((1, length[idx])))", "call_details.pd_par[:max_pd] = idx", "call_details.pd_length[:max_pd] = length[idx]",
+            "call_details.pd_offset[:max_pd] = offset[idx]", "call_details.pd_stride[:max_pd] = pd_stride[:-1]",
+            "call_details.num_eval = pd_stride[-1] if np.all(length > 0) else 0", "call_details.num_active = num_active", "return call_details"]
+    for t in need:
+        if t not in txt[i_ix:]:
+            raise Untranslatable("missing after the selection: %s" % t)
+    return active, refuses
+
+
+def gen_details():
+    """Regenerate Gen/C01_details.v from the text of details.make_details."""
+    import os
+    lines = ["(* GENERATED by harness/c01.py from sasmodels/details.py (make_details: which parameters get a loop, when the call is refused, how many mesh points) *)",
+             "From Coq Require Import List Arith Bool.", "Import ListNotations.", "From SM Require Import Base.Num C01.Model.", ""]
+    note = None
+    try:
+        active, refuses = _translate_make_details()
+    except (Untranslatable, OSError, SyntaxError) as exc:
+        note = "%s: %s" % (type(exc).__name__, exc)
+        active, refuses = "Nat.ltb 1 n", "Nat.ltb max_pd (code_num_active lens)"
+    lines.append("Definition details_translated : bool := %s." % ("true" if note is None else "false"))
+    if note:
+        lines.append("(* not translated: %s *)" % note.replace("*)", "* )"))
+    lines += ["(* num_active = np.sum(length > 1) *)",
+              "Definition code_num_active (lens : list nat) : nat := length (filter (fun n => %s) lens)." % active,
+              "(* the refusal test, which stands BEFORE the selection is cut to max_pd entries *)",
+              "Definition code_refuses (max_pd : nat) (lens : list nat) : bool := %s." % refuses,
+              "(* idx = np.argsort(length)[::-1][:max_pd]: the max_pd longest distributions, longest first *)",
+              "Definition code_selection (max_pd : nat) (lens : list nat) : list (nat * nat) := firstn max_pd (sort_desc (combine (seq 0 (length lens)) lens)).",
+              "(* num_eval = pd_stride[-1] if np.all(length > 0) else 0, with pd_stride the running product of the selected lengths *)",
+              "Definition code_num_eval (max_pd : nat) (lens : list nat) : nat :=",
+              "  if forallb (fun n => Nat.ltb 0 n) lens then fold_left Nat.mul (map snd (code_selection max_pd lens)) 1 else 0.", ""]
+    common.write_if_changed(os.path.join(common.THEORIES, "Gen", "C01_details.v"), "\n".join(lines))
+    return note
+
+
 def gen():
-    """Regenerate Gen/C01_code.v from the text of kernel.py (Kernel.Fq, Kernel.Iq)."""
+    """Regenerate Gen/C01_code.v from the text of kernel.py (Kernel.Fq, Kernel.Iq) and Gen/C01_details.v from details.py."""
+    _dn = gen_details()
     import os
     lines = ["(* GENERATED by harness/c01.py from sasmodels/kernel.py: Kernel.Fq (normalisation of the accumulated sums) and Kernel.Iq. *)",
              "From Coq Require Import List.", "Import ListNotations.", "From SM Require Import Base.Num C01.Model.", ""]
@@ -502,6 +592,7 @@ def gen():
               "  Definition code_intensity (scale background : T) (s : Sums (T:=T)) : list T :=\n%s." % iq,
               "End Code.", ""]
     common.write_if_changed(os.path.join(common.THEORIES, "Gen", "C01_code.v"), "\n".join(lines))
+    DETAILS_NOTE[0] = _dn
     return note
 
 
@@ -550,6 +641,10 @@ def main(run):
         run.notes.append("kernel.py Fq/Iq not translated (%s): the source-text obligations C01_code_* are vacuous in this run, the behavioural tie decides" % note[0])
     else:
         run.notes.append("Kernel.Fq / Kernel.Iq translated from the current kernel.py (Gen/C01_code.v) and proved equal to the model for every number type (C01_code_normalisation)")
+    if DETAILS_NOTE[0]:
+        run.notes.append("details.make_details not translated (%s): C01_code_make_details is vacuous in this run" % DETAILS_NOTE[0])
+    else:
+        run.notes.append("details.make_details translated from the current details.py (Gen/C01_details.v): count of active distributions, refusal test ahead of the selection, selection and mesh size are the model's (C01_code_make_details)")
     names = sas.compiled_model_names()
     models = list(names) if thorough else [m for m in QUICK_MODELS if m in names]
     ncases = 14 if not thorough else 12
